@@ -292,4 +292,212 @@ def run (_input implOut : Sexp) : Option Verdict := do
 
 end C06
 
+/-! ## C07 — best-so-far and elitist archive -/
+namespace C07
+
+inductive Op where
+  | feed (p : List I) | upd (c : I) | arch (p : List I) | into (p : List I)
+
+def Op.parse? : Sexp → Option Op
+  | .list [.atom "feed", p] => (pop? p).map .feed
+  | .list [.atom "upd", c] => (ind? c).map .upd
+  | .list [.atom "arch", p] => (pop? p).map .arch
+  | .list [.atom "into", p] => (pop? p).map .into
+  | _ => none
+
+def ofBest : Option I → Sexp
+  | none => .list [.atom "best", .atom "none"]
+  | some b => .list [.atom "best", ofInd b]
+
+def best? : Sexp → Option (Option I)
+  | .list [.atom "best", .atom "none"] => some none
+  | .list [.atom "best", b] => (ind? b).map some
+  | _ => none
+
+/-- `a` is a sub-multiset of `b`. -/
+def subMultiset : List I → List I → Bool
+  | [], _ => true
+  | x :: xs, b => b.contains x && subMultiset xs (b.erase x)
+
+def keysOf (l : List I) : List Int := l.filterMap (·.obj)
+def sortedKeys (l : List I) : List Int := sortByKey id (keysOf l)
+def leObj (a b : I) : Bool :=
+  match a.obj, b.obj with
+  | some x, some y => x ≤ y
+  | _, _ => false
+def ltObj (a b : I) : Bool :=
+  match a.obj, b.obj with
+  | some x, some y => x < y
+  | _, _ => false
+
+structure St where
+  best : Option I := none          -- the implementation's best (as last reported)
+  arch : List I := []              -- the implementation's archive (as last reported; witness for tie order)
+  shownB : List I := []            -- every candidate fed to the best-update so far
+  shownA : List I := []            -- every individual shown to the archive so far
+
+/-- One op: model output, does the implementation's output agree, deviation class of the property
+predicate evaluated on the implementation's output, next state. -/
+def stepOp (k : Nat) (st : St) (op : Op) (out : Sexp) : Option (Sexp × Bool × String × St) :=
+  match op with
+  | .feed p =>
+    let m := bestUpdateStep ({ stack := [p], best := st.best } : PM Int)
+    match m with
+    | none =>   -- model: panic (unevaluated member); outside the property's quantifier
+      some (.atom "panic", Sexp.beq out (.atom "panic"), "-", st)
+    | some pm =>
+      let model := ofBest pm.best
+      match best? out with
+      | none => some (model, false, "panic", st)
+      | some b =>
+        let shown := st.shownB ++ p
+        let cls :=
+          match b with
+          | none => if shown.isEmpty then "-" else "best-not-min"
+          | some bi =>
+            if !(p.all fun i => leObj bi i) then "best-not-min"             -- dominates the population
+            else if !(shown.all fun i => leObj bi i) || !shown.contains bi then "best-not-min"
+            else match st.best with
+              | none => "-"
+              | some old => if bi == old || ltObj bi old then "-" else "not-monotone"
+        some (model, Sexp.beq model out, cls, { st with best := b, shownB := shown })
+  | .upd c =>
+    match bestUpdate st.best c with
+    | none => some (.atom "panic", Sexp.beq out (.atom "panic"), "-", st)
+    | some (b', r) =>
+      let model := Sexp.list [.list [.atom "ret", ofBool r], ofBest b']
+      match out with
+      | .list [.list [.atom "ret", rs], bs] =>
+        match bool? rs, best? bs with
+        | some ri, some bi =>
+          let shown := st.shownB ++ [c]
+          -- best_update_spec on the implementation's own previous state
+          let should := match st.best with
+            | none => true
+            | some old => ltObj c old
+          let cls := if ri != should then "wrong-value"
+            else if bi != (if should then some c else st.best) then "wrong-value"
+            else "-"
+          some (model, Sexp.beq model out, cls, { st with best := bi, shownB := shown })
+        | _, _ => none
+      | _ => some (model, false, "panic", st)
+  | .arch p =>
+    match archiveUpdate st.arch p k with
+    | none => some (.atom "panic", Sexp.beq out (.atom "panic"), "-", st)
+    | some a' =>
+      let model := Sexp.list (.atom "arch" :: a'.map ofInd)
+      match out with
+      | .list (.atom "arch" :: is) =>
+        match is.mapM ind? with
+        | none => none
+        | some ai =>
+          let shown := st.shownA ++ p
+          -- K: same keys in the same order, members taken from (previous archive ++ population)
+          let agree := keysOf ai == keysOf a' && ai.length == a'.length && subMultiset ai (st.arch ++ p)
+          -- O: the k best of everything shown so far
+          let cls := if !subMultiset ai shown then "archive"
+            else if ai.length != min k shown.length then "archive"
+            else if sortedKeys ai != (sortedKeys shown).take k then "archive"
+            else "-"
+          some (model, agree, cls, { st with arch := ai, shownA := shown })
+      | _ => some (model, false, "panic", st)
+  | .into p =>
+    let r := archiveInto st.arch p
+    let model := Sexp.list (.atom "pop" :: r.map ofInd)
+    match out with
+    | .list (.atom "pop" :: is) =>
+      match is.mapM ind? with
+      | none => none
+      | some ri =>
+        let extra := ri.drop p.length
+        let cls := if ri.take p.length != p then "dup"
+          else if !(extra.all fun e => st.arch.contains e && !p.contains e) then "dup"
+          else if !(st.arch.all fun e => ri.contains e) then "lost-elitist"
+          else if !(extra.all fun e => extra.count e == 1) then "dup"
+          else "-"
+        some (model, Sexp.beq model out, cls, st)
+    | _ => some (model, false, "panic", st)
+
+def runOps (k : Nat) : St → List Op → List Sexp → Option (List Sexp × Bool × String)
+  | _, [], [] => some ([], true, "-")
+  | st, op :: ops, o :: outs => do
+    let (m, a, c, st') ← stepOp k st op o
+    let (ms, as, cs) ← runOps k st' ops outs
+    pure (m :: ms, a && as, if c != "-" then c else cs)
+  | _, _, _ => none
+
+def comp (input implOut : Sexp) : Option Verdict := do
+  let args ← tagged? "bestarch" input
+  match args with
+  | [kk, .list (.atom "ops" :: os)] =>
+    let k ← tnat? "k" kk
+    let ops ← os.mapM Op.parse?
+    let outs ← tagged? "outs" implOut
+    match runOps k {} ops outs with
+    | some (ms, agree, cls) => pure { agree, holds := cls == "-", cls, model := .list (.atom "outs" :: ms) }
+    | none => none
+  | _ => none
+
+/-! Run level. -/
+inductive REv where
+  | enter (he hb : Bool) | exit
+  | calls (vals : List Int)
+  | update (pop : List Int) (after : Option Int)
+
+def optObj? : Sexp → Option (Option Int)
+  | .atom "none" => some none
+  | s => (obj? s).map some
+
+def ofOptObj : Option Int → Sexp
+  | none => .atom "none"
+  | some k => ofObj k
+
+def REv.parse? : Sexp → Option REv
+  | .list [.atom "s", he, hb] => do pure (.enter (← bool? he) (← bool? hb))
+  | .list [.atom "x"] => some .exit
+  | .list (.atom "c" :: vs) => (vs.mapM obj?).map .calls
+  | .list [.atom "u", vs, b] => do pure (.update (← objs? vs) (← optObj? b))
+  | _ => none
+
+def REv.toEv : REv → Ev Int
+  | .enter he hb => .enter he hb
+  | .exit => .exit
+  | .calls vals => .selfEval vals
+  | .update pop _ => .update pop
+
+/-- Replays the trace on the scoped model; checks every update leaf's visible best. Returns
+(model state, all update leaves agree, all update leaves dominate their population). -/
+def replay : Scoped Int → List REv → Scoped Int × Bool × Bool
+  | s, [] => (s, true, true)
+  | s, ev :: evs =>
+    let s' := scopedStep s ev.toEv
+    let (a, h) := match ev with
+      | .update pop after =>
+        (s'.bests.headD none == after,
+         match after with
+         | none => pop.isEmpty
+         | some b => pop.all fun v => b ≤ v)
+      | _ => (true, true)
+    let (sf, as, hs) := replay s' evs
+    (sf, a && as, h && hs)
+
+def run (_input implOut : Sexp) : Option Verdict := do
+  match implOut with
+  | .list [.list [.atom "out", .atom out], .list (.atom "trace" :: evs), .list [.atom "best", b], .list [.atom "min", m]] =>
+    let evs ← evs.mapM REv.parse?
+    let b ← optObj? b
+    let m ← optObj? m
+    let (s, leafAgree, leafHolds) := replay {} evs
+    let finished := out == "ok"
+    let modelBest := reportedBest s
+    let modelMin := listMin s.returned
+    let model := Sexp.list [.list [.atom "best", ofOptObj modelBest], .list [.atom "min", ofOptObj modelMin]]
+    let agree := leafAgree && (!finished || (b == modelBest && m == modelMin))
+    let finalOk := !finished || b == m
+    let cls := if !leafHolds then "update-not-dominating" else if !finalOk then "best-not-min" else "-"
+    pure { agree, holds := cls == "-", cls, model }
+  | _ => none
+
+end C07
+
 end MahfModel.PopMachine.Wire
